@@ -37,10 +37,40 @@ fn run_trace(method: Method, prob: &dyn Problem, scn: &Scn, lo: &LowOpts, script
     Trace { cbs: so.cbs, status, accepted, log: probe.take_log(), outcome }
 }
 
+/// u' = -d (u + k u^3), v' = -d v / 2 with d = direction of integration (so that both directions decay): the flow from ANY
+/// state is known in closed form, u(tau) = u0 e^-tau / sqrt(1 + k u0^2 (1 - e^-2tau)), tau = |t - t0|. Stiff where |u| ~ 1
+/// and k is large, mild later: a state written by the callback far from the current one invalidates whatever the solver
+/// remembers (Jacobian, LU factors, step size, history).
+struct CubicDecay {
+    k: f64,
+    d: f64,
+}
+impl CubicDecay {
+    fn flow(&self, y: &[f64], tau: f64) -> Vec<f64> {
+        let e = (-tau).exp();
+        vec![y[0] * e / (1.0 + self.k * y[0] * y[0] * (1.0 - e * e)).sqrt(), y[1] * (-0.5 * tau).exp()]
+    }
+}
+impl Problem for CubicDecay {
+    fn dim(&self) -> usize {
+        2
+    }
+    fn f(&self, _t: f64, y: &[f64], dy: &mut [f64]) {
+        dy[0] = -self.d * (y[0] + self.k * y[0] * y[0] * y[0]);
+        dy[1] = -self.d * 0.5 * y[1];
+    }
+    fn jac_dense(&self, _t: f64, y: &[f64]) -> Option<Vec<Vec<f64>>> {
+        Some(vec![vec![-self.d * (1.0 + 3.0 * self.k * y[0] * y[0]), 0.0], vec![0.0, -self.d * 0.5]])
+    }
+    fn describe(&self) -> serde_json::Value {
+        json!({"family": "cubic_decay_with_passive_component", "k": self.k, "direction": self.d})
+    }
+}
+
 pub fn run(ctx: &Ctx) -> (Report, Meta) {
     let k_tol = 50.0;
     let meta = Meta::new(
-        "low-level builders (RK4, RK23, DOPRI5, DOP853, RADAU, BDF) with a recording SolOut on bounded and closed-form problems, both directions, dense on/off; scripts: plain run; Interrupt at every callback index of short runs (index 0 included) and random indices of long ones; ModifiedSolution with an unchanged state at one or several indices (no-op relation); ModifiedSolution doubling the state of a linear homogeneous system under pure relative control (doubling relation); several modifications followed by an interrupt; right-hand sides that depend on t (non-autonomous) so that re-evaluation at the wrong abscissa is visible; non-trivial = script with at least one non-Continue action (distinct by scenario + script hash)",
+        "low-level builders (RK4, RK23, DOPRI5, DOP853, RADAU, BDF) with a recording SolOut on bounded and closed-form problems, both directions, dense on/off; scripts: plain run; Interrupt at every callback index of short runs (index 0 included) and random indices of long ones; ModifiedSolution with an unchanged state at one or several indices (no-op relation); ModifiedSolution doubling the state of a linear homogeneous system under pure relative control (doubling relation); several modifications followed by an interrupt; ModifiedSolution writing a state far from the current one on a stiff cubic decay whose flow from any state is known in closed form (the run must continue from the written state, within tolerance of that flow, to xend); right-hand sides that depend on t (non-autonomous) so that re-evaluation at the wrong abscissa is visible; non-trivial = script with at least one non-Continue action (distinct by scenario + script hash)",
     )
     .assume("explicit methods and Radau: no-op relation is bitwise; doubling relation is bitwise for the explicit methods; BDF (history restart) and Radau doubling: both runs within the C01-type bound of the exact solution")
     .thresholds(json!({"implicit_within_tolerance_factor": k_tol, "contiguity": "xold == previous x to 4 ulps"}))
@@ -49,7 +79,8 @@ pub fn run(ctx: &Ctx) -> (Report, Meta) {
     .floor("interrupts_at_index_0", 60)
     .floor("noop_scripts_checked", 300)
     .floor("doubling_scripts_checked", 150)
-    .floor("post_modification_evaluations_checked", 400);
+    .floor("post_modification_evaluations_checked", 400)
+    .floor("jump_scripts_checked", 300);
 
     let n = ctx.size(16_000, 2_000_000);
     let g = GenOpts { allow_max_step: true, bidirectional_problems: true, max_span: 12.0, ..Default::default() };
@@ -331,6 +362,71 @@ pub fn run(ctx: &Ctx) -> (Report, Meta) {
                         }
                     }
                 }
+            }
+        }
+
+        // ---------------- a state written far from the current one (nonlinear problem with a closed-form flow) ----------------
+        if method != Method::RK4 && ((i / 6) % 3 == 1 || (is_implicit(method) && (i / 6) % 3 == 2)) {
+            let cd = CubicDecay { k: rng.logu(1e1, 1e5), d: dirn };
+            let x0 = if rng.bool() { 0.0 } else { scn.x0 };
+            let span = rng.range(0.5, 3.0);
+            let xend = x0 + dirn * span;
+            let mut s3 = Scn::new(method, x0, xend, vec![1.0, 1.0]);
+            let rt = rng.logu(if method == Method::RK23 { 1e-6 } else { 1e-7 }, 1e-4);
+            s3.rtol = Tol::S(rt);
+            s3.atol = Tol::S(rt * 1e-3);
+            s3.user_jac = is_implicit(method) && rng.chance(0.7);
+            let lo3 = LowOpts { dense: lo.dense, ..Default::default() };
+            let p3 = run_trace(method, &cd, &s3, &lo3, &[], false);
+            rep.eval();
+            if p3.status == Some(Status::Success) && p3.cbs.len() >= 4 {
+                let nc = p3.cbs.len();
+                for _attempt in 0..(if is_implicit(method) { 4 } else { 1 }) {
+                // late indices over-weighted: the solver has settled there and reuses what it remembers
+                let j = if rng.chance(0.6) { nc / 2 + rng.below(nc - 1 - nc / 2) } else { rng.below(nc - 1) };
+                let written = vec![rng.sign() * rng.range(0.5, 1.5), rng.range(0.5, 2.0)];
+                let tr = run_trace(method, &cd, &s3, &lo3, &[(j, Action::Set(written.clone()))], false);
+                rep.eval();
+                rep.count("jump_scripts_checked", 1);
+                let mut c3 = s3.describe(&cd);
+                c3["api"] = json!("low_level");
+                c3["script"] = json!([{"at_callback": j, "action": "ModifiedSolution", "state_written": written}]);
+                let cls = if j == 0 { "jump_at_initial_callback" } else { "jump" };
+                if tr.status != Some(Status::Success) {
+                    rep.violate(&sig("continues_from_written_state", cls), format!("after the callback wrote {:?} at callback {} (x = {:e}) the run ended with {} instead of reaching xend", written, j, p3.cbs[j].x, tr.outcome), &case_id, c3);
+                } else if tr.cbs.len() <= j {
+                    rep.violate(&sig("continues_from_written_state", cls), format!("only {} callbacks although the script acts at callback {}", tr.cbs.len(), j), &case_id, c3);
+                } else {
+                    let last = tr.cbs.last().unwrap();
+                    let rt_sl = rt_slack(method, s3.x0, s3.xend, tr.cbs.len());
+                    if (last.x - xend).abs() > rt_sl {
+                        rep.violate(&sig("ends_at_xend", cls), format!("status Success but the last callback ended at {:e}, xend = {:e}", last.x, xend), &case_id, c3.clone());
+                    }
+                    let xj = tr.cbs[j].x;
+                    let nsteps = (tr.cbs.len() - j) as f64;
+                    let mut worst = 0.0f64;
+                    let mut at = 0usize;
+                    for q in j + 1..tr.cbs.len() {
+                        let cb = &tr.cbs[q];
+                        let ex = cd.flow(&written, (cb.x - xj).abs());
+                        for c in 0..2 {
+                            // contractive flow: errors do not grow; one tolerance scale per component for the whole run
+                            let tolc = s3.atol.at(c) + s3.rtol.at(c) * written[c].abs();
+                            let r = (cb.y[c] - ex[c]).abs() / (nsteps * tolc);
+                            if r > worst {
+                                worst = r;
+                                at = q;
+                            }
+                        }
+                    }
+                    rep.worst(&format!("jump_err_over_nsteps_tol_{}", m), worst);
+                    if worst > k_tol {
+                        rep.violate(&sig("continues_from_written_state", cls), format!("after the callback wrote {:?} at callback {} the states that follow are not the solution through the written state: error {:.0} x steps x tol at callback {}", written, j, worst, at), &case_id, c3);
+                    }
+                }
+                }
+            } else if p3.status.is_none() || p3.status != Some(Status::Success) {
+                rep.inconclusive("cubic_decay_plain_run_not_successful");
             }
         }
 
